@@ -99,6 +99,7 @@ func runC17(p *core.Prog, r *core.Result) {
 		"R17.3 '*' -> [^/]*, '**' -> .* (consuming both stars), '?' -> one character, '\\\\x' -> literal x for x in \\\\ * ? [ ] and an error otherwise or at end of pattern",
 		"R17.4 the emission skeleton for 1, 2 and 3 patterns parses to begin-text · (alternation of the per-pattern groups) · end-text: every alternative is anchored at both ends",
 		"R17.5 callers match whole paths with MatchString only",
+		"R17.7 a glob set is applied to each path separately: no directory walk prunes a subtree (SkipDir/SkipAll) depending on a match of the directory's own path",
 		"R17.6 the compiled set is a function of the given pattern list alone (no package-level state, every successful return is the compilation of this call's pattern)",
 	}
 	r.NotDecided = []string{"Go's regexp engine implements the parsed expression (trusted)", "'.' does not match newline in Go's default mode: paths are assumed to contain no newline", "the undocumented [...] character-class pass-through"}
@@ -735,10 +736,34 @@ func runC17(p *core.Prog, r *core.Result) {
 				continue
 			}
 			nUse++
+			// R17.7 the verdict of a set is taken per path: in a walk callback it never prunes a subtree
+			if call, isCall := c.(*ssa.Call); isCall {
+				nPrune := 0
+				for _, ret := range core.ReturnsOf(f) {
+					for _, v := range core.RetVals(ret) {
+						ld, ok := v.(*ssa.UnOp)
+						if !ok {
+							continue
+						}
+						g, ok := ld.X.(*ssa.Global)
+						if !ok || g.Pkg == nil || g.Pkg.Pkg.Path() != "io/fs" || (g.Name() != "SkipDir" && g.Name() != "SkipAll") {
+							continue
+						}
+						dependsOnMatch := p.FactsAt(ret).Find(func(cv ssa.Value, _ bool) bool {
+							return core.DependsOn(cv, core.SliceOpts{}, func(x ssa.Value) bool { return x == ssa.Value(call) })
+						})
+						if dependsOnMatch {
+							nPrune++
+							r.Bad("R17.7", fmt.Sprintf("%s#prunes-on-match-%d", fname(f), nPrune), p.InstrPos(ret), "the walk skips a whole directory depending on whether the directory's own path matches a glob set: paths below it are then decided by the directory, not by matching each of them (files under a directory named by an exclude pattern are dropped although no exclude pattern matches them)")
+						}
+					}
+				}
+			}
 			r.Check(mc.Method == "MatchString", "R17.5", fname(f)+"#glob-use:"+mc.Method, p.InstrPos(c.(ssa.Instruction)), "the compiled glob set is applied with MatchString to the whole path", "the compiled glob set is applied with "+mc.Method+": not a whole-path match")
 		}
 	}
 	r.Floor("R17.5", nUse, 1, "uses of compiled glob sets")
+	r.OK("R17.7", "module#walks-do-not-prune-on-match", "-", "checked %d uses of compiled glob sets: no walk callback returns SkipDir/SkipAll under a condition that depends on a match result (violations are listed separately)", nUse)
 }
 
 // strIndex recognises s[i] on a string (ssa.Index or ssa.Lookup depending on the x/tools version).
